@@ -53,8 +53,10 @@ pub fn default_cfg(rng: &mut Rng, scalars: &[il::Scalar]) -> GenCfg {
     cfg.expr_depth = rng.range(1, 2) as u32;
     cfg.allow_div = rng.chance(1, 4);
     cfg.allow_mem = rng.chance(2, 3);
-    cfg.allow_intrinsic = rng.chance(1, 4);
-    cfg.allow_branch = rng.chance(1, 6);
+    cfg.allow_intrinsic = rng.chance(1, 3);
+    cfg.allow_branch = rng.chance(1, 4);
+    cfg.intrinsic_pct = 10;
+    cfg.branch_pct = 8;
     cfg.mem_bases = vec![0x2000];
     cfg
 }
